@@ -295,12 +295,122 @@ pub fn check(case: &Case, st: &mut Stats) -> Result<(), Violation> {
     Ok(())
 }
 
+// ---------------------------------------------------------------- encode histories over subsampled configs
+/// A short history of encodes on one thread: the same picture (4x4 blocks of constant colour, so that every chroma
+/// sample has one ideal value under any subsampling) encoded with three or four configs that differ in depth,
+/// subsampling, range or matrix. Every plane sample of every step is held against the H.273 ideal.
+#[derive(Debug, Clone)]
+pub struct EncHist {
+    pub cfgs: Vec<YuvConfig>,
+    pub bw: usize,
+    pub bh: usize,
+    pub seed: u64,
+}
+impl EncHist {
+    fn to_json(&self) -> Value {
+        json!({"prop":"C02","part":"enc-history","cfgs": self.cfgs.iter().map(cfg_json).collect::<Vec<_>>(),"bw":self.bw,"bh":self.bh,"seed":self.seed.to_string()})
+    }
+    fn from_json(v: &Value) -> Option<EncHist> {
+        Some(EncHist {
+            cfgs: v.get("cfgs")?.as_array()?.iter().filter_map(cfg_from_json).collect(),
+            bw: v.get("bw")?.as_u64()? as usize,
+            bh: v.get("bh")?.as_u64()? as usize,
+            seed: v.get("seed")?.as_str()?.parse().ok()?,
+        })
+    }
+}
+
+pub fn enc_hist_strategy() -> BoxedStrategy<EncHist> {
+    (std_matrix(), any::<bool>(), any::<u64>(), 1usize..=3, 1usize..=2, 3usize..=4)
+        .prop_map(|(mc, full, seed, bw, bh, steps)| {
+            let mut e = Expand(seed ^ 0xE7C);
+            let depths = [8u8, 16, 10, 12, 9];
+            let mut cfgs = Vec::new();
+            let ss0 = *e.pick(&crate::gen::SUBSAMPLINGS);
+            for i in 0..steps {
+                let mut c = cfg(mc, TC::BT1886, CP::BT709, *e.pick(&depths), full, ss0);
+                // each step changes one or two fields with respect to the first
+                if i > 0 || e.below(2) == 0 {
+                    match e.below(4) {
+                        0 => {
+                            let ss = *e.pick(&crate::gen::SUBSAMPLINGS);
+                            c.subsampling_x = ss.0;
+                            c.subsampling_y = ss.1;
+                        }
+                        1 => c.full_range = !full,
+                        2 => c.matrix_coefficients = *e.pick(&STD_MC),
+                        _ => {
+                            c.subsampling_x = (ss0.0 + 1) % 3;
+                        }
+                    }
+                }
+                if (c.subsampling_x, c.subsampling_y) == (0, 2) || (c.subsampling_x, c.subsampling_y) == (1, 2) {
+                    c.subsampling_y = 1;
+                }
+                cfgs.push(c);
+            }
+            EncHist { cfgs, bw, bh, seed }
+        })
+        .boxed()
+}
+
+pub fn check_enc_hist(hc: &EncHist, st: &mut Stats) -> Result<(), Violation> {
+    let (w, h) = (hc.bw * 4, hc.bh * 4);
+    let mut e = Expand(hc.seed);
+    let cols: Vec<[f32; 3]> = (0..hc.bw * hc.bh).map(|_| [e.range_f64(-0.2, 1.2) as f32, e.range_f64(-0.2, 1.2) as f32, e.range_f64(-0.2, 1.2) as f32]).collect();
+    let px: Vec<[f32; 3]> = (0..w * h).map(|i| cols[(i / w / 4) * hc.bw + (i % w) / 4]).collect();
+    let fail = |sig: &str, msg: String| Violation { signature: format!("C02:enc-history:{sig}"), message: format!("{msg}; history {}", hc.to_json()), case: hc.to_json() };
+    st.evaluations += 1;
+    for (si, c) in hc.cfgs.iter().enumerate() {
+        fn planes_of<T: Pixel>(c: &YuvConfig, px: &[[f32; 3]], w: usize, h: usize) -> Result<(Vec<(usize, usize, Vec<u16>)>, YuvConfig), String> {
+            let rgb = Rgb::new(px.to_vec(), w, h, c.transfer_characteristics, c.color_primaries).map_err(|e| format!("{e:?}"))?;
+            let y = Yuv::<T>::try_from((&rgb, *c)).map_err(|e| format!("encode failed: {e:?}"))?;
+            Ok((crate::conv::yuv_samples(&y), y.config()))
+        }
+        let r = catch(|| if c.bit_depth == 8 && hc.seed % 2 == 0 { planes_of::<u8>(c, &px, w, h) } else { planes_of::<u16>(c, &px, w, h) });
+        let (planes, outcfg) = match r {
+            Err(p) => return Err(fail("panic", format!("step {si} panicked: {p}"))),
+            Ok(Err(m)) => return Err(fail("error", format!("step {si}: {m}"))),
+            Ok(Ok(x)) => x,
+        };
+        if outcfg != *c {
+            return Err(fail("config", format!("step {si}: requested {} but the output carries {}", cfg_json(c), cfg_json(&outcfg))));
+        }
+        let tol = 0.5 + 1e-6 * (1u64 << c.bit_depth) as f64;
+        let (ssx, ssy) = (c.subsampling_x as usize, c.subsampling_y as usize);
+        for (pl, (pw, ph, samples)) in planes.iter().enumerate() {
+            let (ew, eh) = if pl == 0 { (w, h) } else { (w >> ssx, h >> ssy) };
+            if (*pw, *ph) != (ew, eh) {
+                return Err(fail("plane-size", format!("step {si} plane {pl} is {pw}x{ph}, expected {ew}x{eh}")));
+            }
+            for (i, code) in samples.iter().enumerate() {
+                let (x, y) = (i % pw, i / pw);
+                let (lx, ly) = if pl == 0 { (x, y) } else { (x << ssx, y << ssy) };
+                let col = cols[(ly / 4) * hc.bw + lx / 4];
+                let want = ideal(c, col)[pl].clamp(0.0, ((1u64 << c.bit_depth) - 1) as f64);
+                if !((*code as f64 - want).abs() <= tol) {
+                    return Err(fail("code", format!("step {si} (config {}): plane {pl} sample ({x},{y}) is {code}, the H.273 ideal (clamped to the code range) for its colour {:?} is {:.4}", cfg_json(c), col, want)));
+                }
+            }
+            st.comparisons += samples.len() as u64;
+        }
+    }
+    st.class("encode_histories", 1);
+    st.nontrivial(&hc.to_json().to_string());
+    st.sample(|| hc.to_json());
+    Ok(())
+}
+
 pub fn run(ctx: &Ctx, st: &mut Stats) -> Vec<Violation> {
     let mut v = run_proptest(ctx, st, "random", ctx.cases(60_000, 5_000_000), strategy, check);
     if !v.is_empty() {
         return v;
     }
     v.extend(lattice(ctx, st));
+    if !v.is_empty() {
+        return v;
+    }
+    v.extend(run_proptest(ctx, st, "enc-histories", ctx.cases(30_000, 1_000_000), enc_hist_strategy, check_enc_hist));
     if !v.is_empty() {
         return v;
     }
@@ -440,6 +550,10 @@ fn lattice(ctx: &Ctx, st: &mut Stats) -> Vec<Violation> {
 pub fn replay(v: &Value) -> Result<(), String> {
     if v.get("part").and_then(|p| p.as_str()) == Some("soak") {
         return super::soak::replay("C02", v);
+    }
+    if v.get("part").and_then(|p| p.as_str()) == Some("enc-history") {
+        let hc = EncHist::from_json(v).ok_or("bad history")?;
+        return std::thread::spawn(move || check_enc_hist(&hc, &mut Stats::new()).map_err(|v| v.message)).join().map_err(|_| "panicked".to_string())?;
     }
     let cfg = cfg_from_json(v.get("cfg").ok_or("cfg")?).ok_or("bad cfg")?;
     let seeded = v.get("seeded").and_then(|sd| Some(Px::Seeded { stratum: sd.get("stratum")?.as_u64()? as u8, seed: sd.get("seed")?.as_str()?.parse().ok()? }));
